@@ -3,9 +3,9 @@ CONSTANTS
   MaxV = 3
   MaxTurnout = 6
   PevChoices <- Pev_thorough
-  AllowZeroFinal = FALSE
   Export = FALSE
   IntTruncation = FALSE
+  MonotoneOnRescaled = FALSE
   MaxDist = 5
 INVARIANT TypeOK
 INVARIANT RegularYieldsRows
